@@ -140,7 +140,8 @@ theorem pre_sim (F : Frame inpS inpW δ) (hops : OpsSim env.ops inpS inpW δ K) 
     (hdebt : 0 < d → hasEoc sd = true)
     (hskip : 0 < skip → (sd.enter.isEmpty = true ∨ ms.c.entered = true)) :
     SPanic (preOf env inpS sd ms).2 ∨
-    (∃ sg sg', (preOf env inpS sd ms).2 = some sg ∧ (preOf env inpW sd mw).2 = some sg' ∧ SigRel δ 0 (some sg) (some sg')) ∨
+    (∃ sg sg', (preOf env inpS sd ms).2 = some sg ∧ (preOf env inpW sd mw).2 = some sg' ∧ SigRel δ 0 (some sg) (some sg') ∧
+      DirOk δ K ((preOf env inpS sd ms).1, some sg) ((preOf env inpW sd mw).1, some sg')) ∨
     ((preOf env inpS sd ms).2 = none ∧ (preOf env inpW sd mw).2 = none ∧
       MRel δ d skip (fs st).2 sm (preOf env inpS sd ms).1 (preOf env inpW sd mw).1 ∧
       K d (preOf env inpS sd ms).1.x.sink (preOf env inpW sd mw).1.x.sink ∧
@@ -192,7 +193,7 @@ theorem pre_sim (F : Frame inpS inpW δ) (hops : OpsSim env.ops inpS inpW δ K) 
     have hcw : (!sd.enter.isEmpty && !mw.c.entered) = true := by rw [hrel.c.entered, hne, hnent]; rfl
     have hcs : (!sd.enter.isEmpty && !ms.c.entered) = true := by rw [hne, hnent]; rfl
     have heP : e.P = true := by rw [absCalls_enter_P sd.enter hall habs]; rfl
-    rcases hcalls with ⟨_, hp⟩ | ⟨hs, hm⟩
+    rcases hcalls with ⟨_, hp⟩ | ⟨hs, hm, hdir⟩
     · left
       cases hrs : (runCalls env inpS sd.enter { ms with c := { ms.c with nextPos := ms.c.nextPos + 1 } }).2 with
       | none => rw [hrs] at hp; exact hp.elim
@@ -205,7 +206,7 @@ theorem pre_sim (F : Frame inpS inpW δ) (hops : OpsSim env.ops inpS inpW δ K) 
         | some sg' =>
           rw [hrw] at hs
           rw [preOf_some inpS sd ms hcs sg hrs, preOf_some inpW sd mw hcw sg' hrw]
-          exact Or.inr (Or.inl ⟨sg, sg', rfl, rfl, hs⟩)
+          exact Or.inr (Or.inl ⟨sg, sg', rfl, rfl, hs, fun dr bm hh => hdir dr bm (by rw [hrs]; exact hh)⟩)
       | none =>
         rw [hrs] at hs
         have hrw := hs.none_left
@@ -482,16 +483,16 @@ theorem stateFn_sim (F : Frame inpS inpW δ) (hops : OpsSim env.ops inpS inpW δ
     have hfl : flagsOf env.tbl fs ms.c = flagsAt fs sd ms.c.state ms.c.entered := by
       unfold flagsOf; rw [hlook]
     rw [hfl] at hrel0
-    rcases pre_sim F hops hlook hwf rfl hrel0 hK hs1 hs2 (fun h => (hs3 h).choose_spec.2.1) with hp | ⟨sg, sg', h1, h2, h3⟩ | ⟨h1, h2, hrel, hK', cx, hnp, hlast, hnpw, hidem⟩
+    rcases pre_sim F hops hlook hwf rfl hrel0 hK hs1 hs2 (fun h => (hs3 h).choose_spec.2.1) with hp | ⟨sg, sg', h1, h2, h3, h4⟩ | ⟨h1, h2, hrel, hK', cx, hnp, hlast, hnpw, hidem⟩
     · left; left
       revert hp
       cases (preOf env inpS sd ms).2 with
       | none => intro hp; exact hp.elim
       | some sg => intro hp; exact hp
-    · left; right
+    · left
       rw [h1, h2]
       simp only
-      cases sg <;> cases sg' <;> first | exact h3 | exact h3.elim
+      exact lockOut_of_sig h3 h4
     · rw [h1, h2]
       simp only
       have hsm' : sm = .none ∨ (sm = .stale ∧ hasSeq sd = true) := by
